@@ -4,6 +4,8 @@ package main
 // VIOLATION lines, replay files, evidence.
 
 import (
+	"go/types"
+	"go/ast"
 	"encoding/json"
 	"fmt"
 	"os"
@@ -210,6 +212,80 @@ func cmdCheck(args []string) int {
 	if len(funcs) == 0 && len(lemmas) == 0 && len(extraChecks[prop]) == 0 {
 		return broken("no function, lemma or extra check carries this property (contract files missing?)")
 	}
+	// helpers: functions under contract that the property's functions call
+	// (two levels) carry the property as well - a notice helper that drops a
+	// line, or a constructor that mis-initialises, breaks the property even
+	// though its own contract was written for another one
+	helper := map[string]bool{}
+	{
+		have := map[string]bool{}
+		for _, f := range funcs {
+			have[f.u.Pkg.PkgPath+"\x00"+f.name] = true
+		}
+		frontier := funcs
+		for depth := 0; depth < 2; depth++ {
+			var next []struct {
+				u    *Unit
+				name string
+			}
+			for _, f := range frontier {
+				base := f.name
+				if i := strings.Index(base, "#"); i >= 0 {
+					base = base[:i]
+				}
+				fd := f.u.Funcs[base]
+				if fd == nil || fd.Body == nil {
+					continue
+				}
+				info := f.u.Pkg.TypesInfo
+				ast.Inspect(fd.Body, func(x ast.Node) bool {
+					call, ok := x.(*ast.CallExpr)
+					if !ok {
+						return true
+					}
+					var obj types.Object
+					switch fn := ast.Unparen(call.Fun).(type) {
+					case *ast.Ident:
+						obj = info.Uses[fn]
+					case *ast.SelectorExpr:
+						obj = info.Uses[fn.Sel]
+					}
+					tf, ok := obj.(*types.Func)
+					if !ok || tf.Pkg() == nil {
+						return true
+					}
+					cu := w.Units[tf.Pkg().Path()]
+					if cu == nil || cu.Specs == nil {
+						return true
+					}
+					key := calleeKey(tf)
+					short := key[strings.Index(key, ".")+1:]
+					fs := cu.FSpecs[short]
+					if fs == nil || fs.Trusted {
+						return true
+					}
+					// the callee and its closures
+					for _, cand := range cu.Specs.Funcs {
+						if cand.Name == short || strings.HasPrefix(cand.Name, short+"#") {
+							k := cu.Pkg.PkgPath + "\x00" + cand.Name
+							if !have[k] {
+								have[k] = true
+								helper[cu.Short+"."+cand.Name] = true
+								item := struct {
+									u    *Unit
+									name string
+								}{cu, cand.Name}
+								funcs = append(funcs, item)
+								next = append(next, item)
+							}
+						}
+					}
+					return true
+				})
+			}
+			frontier = next
+		}
+	}
 	kfs := loadKnownFindings()
 	var exs []*Exec
 	var genErrs []string
@@ -255,7 +331,7 @@ func cmdCheck(args []string) int {
 		var keep []string
 		for _, n := range ex.ObOrd {
 			ob := ex.Obs[n]
-			if hasProp(ob.Props, prop) || ob.Kind == "reach" || ob.Kind == "canary" || ob.Kind == "contract-binding" {
+			if hasProp(ob.Props, prop) || helper[ex.FName] || ob.Kind == "reach" || ob.Kind == "canary" || ob.Kind == "contract-binding" {
 				keep = append(keep, n)
 				all = append(all, ob)
 			}
